@@ -42,6 +42,8 @@ MISSED_FIRST = {
  "C13-9": "ill-formed sequences were rendered single-spaced only -> tightest rendering as well",
  "C14-7": "iterators were only collected -> partially advanced iterators finished through for_each / fold / last / count / nth",
  "C14-9": "renaming never went through source text -> renamed source must precompile to the iterator-renamed tree; `_<digits>` names",
+ "C15-7": "(first 'caught' only through the Miri float false alarm) all contexts were built on the main thread -> every worker also builds a context of its own and evaluates the shared trees against it",
+ "C15-9": "(first 'caught' only through the Miri float false alarm) identifiers were all short -> variables and functions with names beyond 16 bytes",
  "C16-7": "no byte-order mark / zero-width prefixes in the strings -> added",
  "C16-5": "no failing deserializations; the transport self-check went through evalexpr's own Value -> damaged inputs interleaved, harness-owned mirror type for the self-check",
 }
